@@ -19,6 +19,7 @@ func init() {
 			`R01.3 per-file framing on the writer side (WritePatch, rediff.Optimize): every file's series is opened by a SyncHeader and closed by a HEY_YOU_DID_IT SyncOp on every path, with a BsdiffHeader before a bsdiff series; ` +
 			`R01.4 every SyncOp/SyncHeader kind the writers emit has a case on the reader side; R01.5 NewFreshBowl prepares the output folder (dirs, symlinks, truncation) before it can succeed; R13.3 codec pairing (every compression setting). ` +
 			`R02.8 (shared) whole-file copies between opened files truncate their destination. ` +
+			`R07.4 (shared) a ReadSeeker obtained from pool.GetReadSeeker is Seek'ed on every path before it is consumed as a plain reader (pools re-issue their open file at whatever position it was left). ` +
 			`NOT decided: the rolling search, range replay arithmetic, that the ops tile the file, tree equality.`,
 		Run: runC01,
 	})
@@ -188,6 +189,8 @@ func runC01(c *core.Ctx) {
 	c.Rule("R01.4", "op-kind agreement writer/reader")
 	c.Rule("R01.5", "fresh bowl preparation")
 	ruleCopiesTruncate(c)
+	ruleCommitWritersReplace(c)
+	ruleRewindBeforeLinearRead(c, "R07.4")
 	c.Rule("R13.3", "codec pairing")
 	ruleMatchAcceptance(c, "R01.1")
 
